@@ -179,6 +179,8 @@ type env struct {
 	seq     map[int]int
 	history []string
 	sentTo  map[int]int // datagrams sent per client
+	// mustDeliver lists (client, seq) of datagrams that may not be lost (see the finish action)
+	mustDeliver [][2]int
 }
 
 func addr(c int) net.Addr { return &net.UDPAddr{IP: net.IPv4(10, 0, 0, byte(10+c)), Port: 4000 + c} }
@@ -287,6 +289,12 @@ func runHistory(t *rapid.T, idle time.Duration) {
 			e.history = append(e.history, fmt.Sprintf("finish(c%d,%q,+%d)", c, cmd, follow))
 			check(e.send(c, cmd, 10), "finish")
 			for i := 0; i < follow && !wedged; i++ {
+				// Datagrams that were already queued on the association when it ended may be dropped (its queue
+				// holds 5). A datagram the loop was still holding, and everything after it, belongs to a later
+				// moment: it must be served by a fresh association.
+				if i >= 5 {
+					e.mustDeliver = append(e.mustDeliver, [2]int{c, e.seq[c]})
+				}
 				check(e.send(c, "", 10), "finish-followers")
 			}
 			endedOnce = true
@@ -396,6 +404,18 @@ func runHistory(t *rapid.T, idle time.Duration) {
 		}
 		seen[k] = true
 	}
+	for _, md := range e.mustDeliver {
+		if !seen[fmt.Sprintf("%d/%d", md[0], md[1])] {
+			// A single loss could in principle stem from the loop picking the dying association in the few
+			// nanoseconds between its liveness check and the hand-over; a real defect reproduces at will.
+			if again := confirmLoss(t, idle); again < 2 {
+				hx.Class("C09/loss-not-reproduced", 1)
+				break
+			}
+			fail("datagram-lost-across-association-end", "datagram c%d seq %d arrived after more than a queue's worth of datagrams behind the one that ended the association; it was neither delivered to the old nor to a fresh association", md[0], md[1])
+			return
+		}
+	}
 	for _, s := range e.pc.SentSnapshot() {
 		var c, q int
 		if _, err := fmt.Sscanf(string(s.Data), "R%d:%d", &c, &q); err == nil && s.Addr.String() != addr(c).String() {
@@ -417,6 +437,39 @@ func runHistory(t *rapid.T, idle time.Duration) {
 	if nontrivial {
 		hx.Sample(fmt.Sprint(nclients, endedOnce), map[string]any{"clients": nclients, "history": e.history, "delivered": len(dels), "associations": nassoc})
 	}
+}
+
+// confirmLoss replays the minimal scenario three times on fresh servers (a handler that finishes after a pause while
+// eight datagrams follow) and reports how often a datagram beyond the queue's capacity got lost.
+func confirmLoss(t *rapid.T, idle time.Duration) int {
+	lost := 0
+	for r := 0; r < 3; r++ {
+		e := start(t, idle)
+		e.send(0, "d30", 10)
+		var want []int
+		for i := 0; i < 8; i++ {
+			if i >= 5 {
+				want = append(want, e.seq[0])
+			}
+			e.send(0, "", 10)
+		}
+		time.Sleep(120 * time.Millisecond)
+		e.w.mu.Lock()
+		got := map[int]bool{}
+		for _, d := range e.w.deliveries {
+			got[d.seq] = true
+		}
+		e.w.mu.Unlock()
+		for _, q := range want {
+			if !got[q] {
+				lost++
+				break
+			}
+		}
+		_ = e.pc.Close()
+		time.Sleep(5 * time.Millisecond)
+	}
+	return lost
 }
 
 func TestDemux(t *testing.T) {
